@@ -12,7 +12,9 @@ CONSTANTS
   Ends = {"close"}
   Writers = FALSE
   MaxOps = 1
+  Parking = FALSE
   ResetOnOpen = TRUE
+  ResetOnStart = TRUE
   RegisterOnReach = FALSE
   EndChecksOnError = TRUE
   LogCalls = FALSE
